@@ -371,10 +371,6 @@ def judge(src, out, exact_names_of=None):
         return 'malformed source rejected, but not with a syntax error'
     if lo <= out[2] <= hi or out[2] == open_line:
         return None
-    if open_line is not None and sw > 0 and lo - sw <= out[2] <= hi - sw:
-        return ('F29-shape: the syntax error names line %d; the offending token is on line %s, %d line feed(s) inside '
-                'earlier string literals were not counted (the first string literal left open at a line end is on line %d)'
-                % (out[2], lo if lo == hi else '%d..%d' % (lo, hi), sw, open_line))
     return 'the syntax error names line %d, the offending token is on line %s' % (out[2], lo if lo == hi else '%d..%d' % (lo, hi))
 
 # ---- well-formedness of (program, layout) for the round trip (mirror of wf_program / gaps_ok)
@@ -470,17 +466,7 @@ def oracle(fn, arg, out):
         return judge(src, res)
     return None
 
-def _f29(kind, fn, arg, detail):
-    """F29: the reported line is too small by exactly the number of line feeds inside string literals that run over
-    a line end (Scanner.get_token does not count them)"""
-    if kind != 'oracle' or not isinstance(detail, str) or not detail.startswith('F29-shape'):
-        return False
-    if fn not in (2, 3, 4, 5, 9):
-        return False
-    out = FUNCS[fn][1](arg)
-    m = oracle(fn, arg, out)
-    return bool(m) and m.startswith('F29-shape')
-KNOWN_SIGNATURES = {'F29': _f29}
+KNOWN_SIGNATURES = {}
 
 def replay_known(finding):
     pin = finding.get('pinned')
@@ -518,8 +504,7 @@ ASSUMPTIONS = ['letters and digits are ASCII (DESIGN.md 2.2): str.upper of a non
                'integer literals have at most 4300 digits (CPython refuses longer ones with a ValueError; the model says Crash there, the theorems assume the bound)',
                'function bodies nest at most 150 deep (the recursion of parse_group is unguarded; CPython raises RecursionError between 500 and 1000 levels)']
 PARTIAL = ['parse_stream / parse_file agree with parse_string: proved on printed sources (entry_points_agree); on arbitrary sources correspondence (fn 3, 4, 9) and the oracle only',
-           'error_names_line assumes that no string literal is left open at a line end (line feeds inside a string token are not counted by the scanner)',
-           'the reported line is wrong after a string literal that runs over a line end (finding F29, known)',
+           'a string literal left open at a line end with a quote further down: the oracle accepts the line of the open literal (BibTeX reading) or the line under the multi-line reading (pybtex); which of the two is right the property does not say',
            'non-ASCII letters/digits, integer literals beyond 4300 digits and nesting beyond 150 levels are outside the claimed domain']
 
 UNITS = ['READ', 'sort', 'EXECUTE', 'MACRO', 'foo', '{', '}', '#1', '"s"', "'q", ' ', '\n', '%c"\n']
@@ -650,7 +635,7 @@ UNIFORM = [' ', '\n', '\t', '\r\n', '', ' % c"%{\n', '\r', '\n\n ', '\xa0']
 PINNED_SRC = [
     'FUNCTION {a}\nREAD',                       # F21 (fixed by 135237f)
     'ENTRY {a}\nINTEGERS {b}\n',                # F21
-    'EXECUTE {"a\nb" c}\n#',                     # F29
+    'EXECUTE {"a\nb" c}\n#',                     # F29 (fixed by 6970deb)
     'EXECUTE {"a\n\n\nb" "c\nd"}\n\nfoo',         # F29
     'EXECUTE {"a\nb"}\n{',                       # F29
     'ENTRY {a}{b}', 'ENTRY {a}{b}\n\n\n', 'read sort', 'foo', '\n\n{', 'EXECUTE {"a\nb" c}\n#',
